@@ -76,7 +76,11 @@ type Transport struct {
 	// flushes too). In race-mode runs Write/Writev/Flush/Close then count as plain writes to one
 	// location and Read as a plain write to another.
 	UnsafeWriteSide bool
-	wstate, rstate  byte
+	// Wrapped: the mock plays the net.Conn underneath one of the library's own buffering wrappers
+	// (transport.NewTransport). Bytes that reach the connection are on the wire: every successful
+	// Write is followed by a synthetic flush record.
+	Wrapped        bool
+	wstate, rstate byte
 }
 
 func NewTransport(name string) *Transport { return &Transport{Name: name} }
@@ -241,7 +245,11 @@ func (m *Transport) Write(p []byte) (int, error) {
 		return 0, err
 	}
 	m.ev('W', append([]byte(nil), p...), 1, false)
-	m.Unflushed++
+	if m.Wrapped {
+		m.ev('F', nil, 0, false)
+	} else {
+		m.Unflushed++
+	}
 	return len(p), nil
 }
 
